@@ -1578,7 +1578,130 @@ def soundness_family(tier, seed):
         emit(rec)
 
 
-FAMILIES = {"soundness": soundness_family,
+def describe_callable(v, depth=0):
+    """qualified name of a callable plus, for closures, the callables it closes over (never called)"""
+    q = getattr(v, "__qualname__", None) or getattr(v, "__name__", None) or type(v).__qualname__
+    d = {"q": str(q)}
+    if depth < 4:
+        cells = []
+        for c in (getattr(v, "__closure__", None) or ()):
+            try:
+                cv = c.cell_contents
+            except ValueError:
+                continue
+            items = cv if isinstance(cv, (tuple, list)) else [cv]
+            if not isinstance(cv, (tuple, list)) and not callable(cv) and hasattr(cv, "values"):
+                try:
+                    items = list(cv.values())      # ClassDispatcher / dict of dumpers held by a union dumper
+                except Exception:
+                    items = []
+            for it in items:
+                if callable(it) and not isinstance(it, type):
+                    cells.append(describe_callable(it, depth + 1))
+        if cells:
+            d["cells"] = cells
+    return d
+
+
+GENERIC_PRELUDE = (
+    "from dataclasses import dataclass\n"
+    "from decimal import Decimal\n"
+    "from typing import Any, Dict, Generic, List, Optional, TypeVar, Union\n"
+    "T = TypeVar('T')\nU = TypeVar('U')\nV = TypeVar('V')\n"
+    "@dataclass\nclass Book:\n    title: str\n"
+    "B = TypeVar('B', bound=Book)\nC = TypeVar('C', str, bytes)\nN = TypeVar('N', bound=int)\n"
+)
+
+
+def generics_family(tier, seed):
+    """C16: generic dataclass hierarchies given as specs; the loader/dumper of each queried parametrisation is compiled through the
+    real Retort and for every field the bound loader/dumper (with the callables it closes over) is reported"""
+    from adaptix import Retort
+    from adaptix._internal.morphing.model.basic_gen import CodeGenAccumulator
+    import types
+
+    # spec: classes in definition order: (name, params, [(base, [args])], {field: type expr}); queries: type expressions
+    specs = {
+        "simple": {"classes": [("A", ["T"], [], {"x": "T", "y": "int"})],
+                   "queries": ["A[int]", "A[str]", "A[Decimal]", "A[bytes]", "A", "A[bool]"]},
+        "containers": {"classes": [("A", ["T"], [], {"xs": "List[T]", "o": "Optional[T]", "d": "Dict[str, T]", "p": "T"})],
+                       "queries": ["A[int]", "A[str]", "A[Decimal]", "A[float]"]},
+        "two_params": {"classes": [("A", ["T", "U"], [], {"t": "T", "u": "U", "tu": "Dict[T, U]"})],
+                       "queries": ["A[int, str]", "A[str, int]", "A[bool, Decimal]"]},
+        "child_reorders": {"classes": [("A", ["T", "U"], [], {"t": "T", "u": "U"}),
+                                       ("B", ["T", "U"], [("A", ["U", "T"])], {"own": "T"})],
+                           "queries": ["B[int, str]", "B[str, int]", "A[int, str]"]},
+        "partial_binding": {"classes": [("A", ["T", "U"], [], {"t": "T", "u": "U"}),
+                                        ("B", ["V"], [("A", ["int", "V"])], {"v": "List[V]"})],
+                            "queries": ["B[str]", "B[float]", "B[Decimal]"]},
+        "non_generic_child": {"classes": [("A", ["T"], [], {"t": "T", "ts": "List[T]"}),
+                                          ("IntA", [], [("A", ["int"])], {"extra": "str"}),
+                                          ("StrA", [], [("A", ["str"])], {})],
+                              "queries": ["IntA", "StrA", "A[float]"]},
+        "three_levels": {"classes": [("A", ["T"], [], {"a": "T"}),
+                                     ("B", ["T", "U"], [("A", ["U"])], {"b": "T"}),
+                                     ("C3", ["V"], [("B", ["V", "int"])], {"c": "Optional[V]"})],
+                         "queries": ["C3[str]", "C3[float]", "B[str, bool]"]},
+        "shadowing": {"classes": [("A", ["T"], [], {"x": "T", "y": "T"}),
+                                  ("B", ["T"], [("A", ["T"])], {"x": "str"}),
+                                  ("C3", ["U"], [("B", ["int"])], {"y": "U"})],
+                      "queries": ["B[int]", "B[float]", "C3[bool]", "C3[str]"]},
+        "renamed_var": {"classes": [("A", ["T"], [], {"x": "T"}),
+                                    ("B", ["U"], [("A", ["List[U]"])], {"u": "U"})],
+                        "queries": ["B[int]", "B[str]"]},
+        "implicit": {"classes": [("A", ["T", "B", "C", "N"], [], {"t": "T", "b": "B", "c": "C", "n": "N"})],
+                     "queries": ["A", "A[int, Book, str, bool]"]},
+        "two_bases": {"classes": [("A", ["T"], [], {"a": "T"}), ("M", ["U"], [], {"m": "U"}),
+                                  ("B", ["T", "U"], [("A", ["T"]), ("M", ["U"])], {"own": "Dict[T, U]"})],
+                      "queries": ["B[int, str]", "B[str, float]"]},
+    }
+    for sname, spec in specs.items():
+        src = GENERIC_PRELUDE
+        for name, params, bases, fields in spec["classes"]:
+            bl = [f"{b}[{', '.join(a)}]" if a else b for b, a in bases]
+            if params:
+                bl.append(f"Generic[{', '.join(params)}]")
+            body = "\n".join(f"    {f}: {t}" for f, t in fields.items()) or "    pass"
+            src += f"@dataclass\nclass {name}" + (f"({', '.join(bl)})" if bl else "") + f":\n{body}\n"
+        _KIND_COUNTER[0] += 1
+        mod = types.ModuleType(f"generics_family_{_KIND_COUNTER[0]}")
+        sys.modules[mod.__name__] = mod
+        try:
+            exec(src, mod.__dict__)     # class definitions only
+        except Exception as e:
+            emit({"kind": "generics", "spec": sname, "harness_error": f"{type(e).__name__}: {e}", "trace": src[-400:]})
+            continue
+        for q in spec["queries"]:
+            rec = {"kind": "generics", "spec": sname, "classes": spec["classes"], "query": q}
+            try:
+                tp = eval(q, mod.__dict__)      # builds the parametrised alias only
+                for what in ("loader", "dumper"):
+                    acc = CodeGenAccumulator()
+                    retort = Retort(recipe=[acc])
+                    try:
+                        getattr(retort, "get_" + what)(tp)
+                        err = None
+                    except Exception as e:
+                        err = type(e).__name__
+                    top = None
+                    for r, d in acc.list:
+                        if r.last_loc.type is tp or r.last_loc.type == tp:
+                            top = d
+                    if top is None and acc.list:
+                        top = acc.list[-1][1]
+                    binds = {}
+                    if top is not None:
+                        for k, v in top.namespace.items():
+                            if k.startswith(("g_loader_", "g_dumper_")):
+                                binds[k[2:]] = describe_callable(v)
+                    rec[what] = {"error": err, "source": top.source if top is not None else None, "bindings": binds}
+            except Exception as e:
+                rec["harness_error"] = f"{type(e).__name__}: {e}"
+                rec["trace"] = traceback.format_exc()[-500:]
+            emit(rec)
+
+
+FAMILIES = {"soundness": soundness_family, "generics": generics_family,
             "loader": loader_family, "dumper": dumper_family, "literal": literal_family, "hostile": hostile_family,
             "broach": broach_family, "converter": converter_family, "convpipe": convpipe_family,
             "layoutpipe": layoutpipe_family, "kinds": kinds_family}
